@@ -1,6 +1,7 @@
 import Beetswap.Proofs.ClientView
 import Beetswap.Proofs.Server
 import Beetswap.Proofs.ClientSending
+import Beetswap.Proofs.ServerLinkThms
 /-!
 # C15 — Extra connections to a peer neither duplicate nor reset the exchange (partial)
 PARTIAL: the theorems are about the behaviours' bookkeeping; the connections themselves (libp2p-swarm,
@@ -64,5 +65,33 @@ theorem report_keeps_exchange (c : State) (p src : Nat) (st : Sending) :
   ⟨(Proofs.ClientSending.sendingChanged_fields c p src st).2.1,
    (Proofs.ClientSending.sendingChanged_fields c p src st).2.2.2.2.2.2,
    (Proofs.ClientSending.sendingChanged_fields c p src st).2.2.2.2.2.1⟩
+
+
+/-! ### The whole pipeline: server behaviour, swarm routing (`NotifyHandler::Any`), one handler per
+connection (`Model/ServerLink`), for every schedule -/
+section Pipeline
+open Beetswap.ServerLink Beetswap.ServerSink
+open Beetswap.Proofs.ServerLink (Holds Connected ids deliverVia okAns)
+open Beetswap.Proofs.ServerSink (pendingOf)
+
+/-- Server side, for every schedule: while any connection of the peer is in the pool the server
+keeps the peer's record — a further connection does not reset it, closing one of several keeps it. -/
+theorem record_kept_while_connected (s : ServerLink.State) (hr : ServerLink.Reachable s) (c : Nat) (l : Link)
+    (hl : s.links[c]? = some l) (hg : l.gone = false) : l.peer ∈ s.sv.wl :=
+  Proofs.ServerLink.record_kept_while_connected s hr c l hl hg
+
+/-- Each block reply goes over exactly one connection: wherever the state holds a dispatched
+event, it holds it once. -/
+theorem one_place (s : ServerLink.State) (hr : ServerLink.Reachable s) (n : Nat) (p1 p2 : Place)
+    (h1 : Holds s n p1) (h2 : Holds s n p2) : p1 = p2 :=
+  Proofs.ServerLink.one_place s hr n p1 p2 h1 h2
+
+/-- A connection that has begun to close holds nothing in its channel and is offered nothing more:
+replies dispatched afterwards go over the remaining connections. -/
+theorem closing_connection_gets_nothing (s : ServerLink.State) (hr : ServerLink.Reachable s) (c : Nat) (l : Link)
+    (hl : s.links[c]? = some l) (hc : l.closing = true) : l.cmds = [] :=
+  Proofs.ServerLink.closing_connection_gets_nothing s hr c l hl hc
+
+end Pipeline
 
 end Beetswap.Props.C15
